@@ -37,6 +37,7 @@ func c02NewHead(w int64) *c02Head {
 	o.StripeSize = 4
 	o.SamplesPerChunk = 4
 	o.ChunkWriteQueueSize = 0
+	o.WALReplayConcurrency = 1 // Init's EnsureOrder would start one goroutine per core for an empty head
 	o.ChunkWriteBufferSize = 64 * 1024
 	o.OutOfOrderTimeWindow.Store(w)
 	o.OutOfOrderCapMax.Store(4)
@@ -51,7 +52,9 @@ func c02NewHead(w int64) *c02Head {
 }
 
 func (c *c02Head) close() {
-	_ = c.h.Close()
+	// not Head.Close: that m-maps the pending head chunks first, i.e. cuts (and pre-allocates) a head
+	// chunk file for every throw-away head — a third of the run time. There is no WAL to close.
+	_ = c.h.chunkDiskMapper.Close()
 	os.RemoveAll(c.dir)
 }
 
